@@ -81,9 +81,10 @@ func (r *Rewriter) GetPrevDecl(structname, methodname string) *ast.FuncDecl {
 			if d.Recv == nil || len(d.Recv.List) == 0 {
 				continue
 			}
-			recv := d.Recv.List[0].Type
+			// the receiver type may be parenthesised: (r *(T)), (r (*T))
+			recv := ast.Unparen(d.Recv.List[0].Type)
 			if star, isStar := recv.(*ast.StarExpr); isStar {
-				recv = star.X
+				recv = ast.Unparen(star.X)
 			}
 			ident, ok := recv.(*ast.Ident)
 			if !ok {
